@@ -1,5 +1,6 @@
 """C21 -- reader source positions delimit each form's text: the region reads back to an
 equal model, children lie within their parent, children are in source order."""
+import io
 import json
 import os
 
@@ -88,6 +89,8 @@ def run(chk):
         chk.obligation("extracted reader model builds", False, str(e))
         binary = None
     impl = rc.Impl()
+    hy = impl.hy
+    from hy.reader.hy_reader import HyReader
     model = rc.Model(binary, oracles) if binary else None
     rng = chk.rng
     gen = rc.Gen(rng)
@@ -114,6 +117,7 @@ def run(chk):
         ires = impl.read_many(text)
         if ires[0] != "Ok":
             chk.count("generator-invalid:" + ires[0])
+            rc.rejected_program(chk, model, text, ires, oracles)
             continue
         tab = rc.pos_table(text)
         tab_index = {}
@@ -175,6 +179,39 @@ def run(chk):
 
         for m in ires[1]:
             visit(rc.canon_impl(m), None, 0)
+        if i % 3 == 0:
+            # files: with skip_shebang=True and a shebang line in front, positions still refer to the whole source
+            base_text = text
+            text = rng.choice(["#!/usr/bin/env hy\n", "#!\n", "#!x\r\n"]) + base_text
+            fres = impl.read_many(text, skip_shebang=True)
+            chk.count("file-read")
+            if fres[0] != "Ok":
+                chk.fail("file-read", {"text": text, "skip_shebang": True}, fres[0], "Ok", how(text))
+            else:
+                tab = rc.pos_table(text)
+                tab_index = {}
+                for k, lc in enumerate(tab):
+                    tab_index.setdefault(lc, k)
+                if model is not None:
+                    d = rc.compare(text, model.read_many(text, skip_shebang=True), fres, oracles, positions=True)
+                    if d:
+                        chk.disagree("Reader.Model.read_many_file (positions) vs hy.read_many(skip_shebang=True)", text, d, "Ok")
+                for m in fres[1]:
+                    visit(rc.canon_impl(m), None, 0)
+            # one reader, the same stream object rewound and read again: the same positions
+            text = base_text
+            st = io.StringIO(text)
+            R = HyReader()
+            try:
+                first = [rc.canon_impl(m) for m in hy.read_many(st, reader=R)]
+                st.seek(0)
+                second = [rc.canon_impl(m) for m in hy.read_many(st, reader=R)]
+            except Exception as e:  # noqa
+                first, second = "first", "raised %s" % type(e).__name__
+            chk.count("rewound-stream")
+            if first != second or first != [rc.canon_impl(m) for m in ires[1]]:
+                chk.fail("rewound-stream-positions", {"text": text}, str(second)[:300], str(first)[:300],
+                         "s = io.StringIO(%r); R = hy.HyReader(); list(hy.read_many(s, reader=R)); s.seek(0); list(hy.read_many(s, reader=R))" % text)
     if model:
         model.close()
 
